@@ -34,8 +34,8 @@ func enumText(items []Value, layout int) string {
 		lits[i] = it.JSON()
 	}
 	switch layout {
-	case 1, 4, 5:
-		nl := map[int]string{1: "\n", 4: "\r\n", 5: "\r"}[layout]
+	case 1, 4, 5, 6:
+		nl := map[int]string{1: "\n", 4: "\r\n", 5: "\r", 6: "\n"}[layout]
 		var sb strings.Builder
 		sb.WriteString("[" + nl)
 		for i, l := range lits {
@@ -43,7 +43,11 @@ func enumText(items []Value, layout int) string {
 			if i < len(lits)-1 {
 				sb.WriteString(",")
 			}
-			sb.WriteString(" // comment " + strconv.Itoa(i) + nl)
+			if layout == 6 {
+				sb.WriteString(" //" + nl)
+			} else {
+				sb.WriteString(" // comment " + strconv.Itoa(i) + nl)
+			}
 		}
 		sb.WriteString("]")
 		return sb.String()
